@@ -92,6 +92,26 @@ class C08:
 
     def generate(self, rnd, index, tier):
         sc = pipeline.gen_scenario(rnd, PROFILE)
+        if rnd.random() < 0.15:
+            # the mirrored-problem equality must also hold across scales: a multiscale step, scalar (asymmetric) interval
+            w = sc["world"]
+            w["rows"], w["cols"] = rnd.randint(24, 36), rnd.randint(26, 40)
+            lo = rnd.randint(-8, 2)
+            w["disp"] = {"kind": "scalar", "min": lo, "max": lo + rnd.randint(2, 6)}
+            w["disp_right"] = None
+            w["bands"] = 1
+            prog = [s_ for s_ in sc["program"] if s_[1].get("filter_method") != "median_for_intervals"]
+            for n_, p_ in prog:
+                p_.pop("band", None)
+                if "RGB_bands" in p_:
+                    p_["RGB_bands"] = None
+            di = next(i for i, (n_, _) in enumerate(prog) if programs.kind_of(n_) == "disparity")
+            prog.insert(rnd.randint(di + 1, len(prog)), ["multiscale", {"multiscale_method": "fixed_zoom_pyramid",
+                                                                     "num_scales": 2, "scale_factor": rnd.choice([2, 2, 3]),
+                                                                     "marge": rnd.choice([0, 1, 2])}])
+            prog[0][1]["subpix"] = 1
+            sc["program"] = prog
+            sc["multiscale"] = True
         return sc
 
     def execute(self, sc):
@@ -133,7 +153,9 @@ class C08:
             fills = any("interpolated_disparity" in prog[i][1] for i in vi)
             after = kinds[vi[0] + 1:]
             changing_after = [k for k in after if k in ("filter", "refinement", "validation")]
-            if not fills and not changing_after:
+            # under a multiscale step the flags raised by validation at a coarse scale legitimately widen the next
+            # scale's search intervals, so the clause is asserted for single-scale programs only
+            if not fills and not changing_after and "multiscale" not in kinds:
                 if probes._canon(A[0]["disparity_map"].data).tobytes() != probes._canon(C[0]["disparity_map"].data).tobytes():
                     viol.append({"class": "C08.validation_changed_left_map", "sig": {}})
                 cov["left_map_compared_with_no_validation_run"] = 1
@@ -151,6 +173,7 @@ class C08:
                 "steps_after_validation": int(kinds[-1] != "validation"),
                 "asymmetric_interval": int(world.disp_bounds(w)[0] != -world.disp_bounds(w)[1]),
                 "multiband": int(w["bands"] > 1),
+                "multiscale_program": int(bool(sc.get("multiscale"))),
             },
         }
 
